@@ -440,6 +440,25 @@ class C19(ParserSessionProp):
                                  f'{fmt}: {type(e).__name__}: {str(e)[:120]} (trigger: {trigger})'),
                         signature={'format': fmt, 'lang': lang, 'exc': type(e).__name__, 'trigger': trigger}))
                     continue
+                # the documented second call form: the n-best list of ONE sentence (a flat list of ScoredTree), as a
+                # caller uses it when it renders sentence by sentence.  What renders inside a document renders alone
+                flat_bad = None
+                for pos in range(len(results)):
+                    bump(stats, 'flat_form_renderings')
+                    try:
+                        to_string(copy.deepcopy(results[pos]), fmt)
+                    except Exception as e:  # noqa
+                        flat_bad = (pos, e)
+                        break
+                if flat_bad is not None:
+                    pos, e = flat_bad
+                    out.append(Violation(
+                        oracle='renders_without_error',
+                        message=(f'{lang} sentence {pos + 1} of a batch that renders as {fmt} cannot be rendered in the single-sentence '
+                                 f'call form to_string(results[i], {fmt!r}): {type(e).__name__}: {str(e)[:120]}'),
+                        signature={'format': fmt, 'lang': lang, 'exc': type(e).__name__, 'trigger': 'flat_form',
+                                   'placeholder': bool(failed[pos])}))
+                    continue
                 if fmt in LINE_FORMATS:
                     if not parsed_only:
                         continue
